@@ -31,7 +31,7 @@ def _signal(c):
     """(array handed to the implementation, its exact values as float64): integer-typed recordings use most of their type's range."""
     x = proto.hex2arr(c['sig'])
     if not c.get('dtype'):
-        return x, x
+        return implutil.present(x, c.get('pres')), x
     off, amp = INT_RANGE[c['dtype']]
     m = float(np.max(np.abs(x))) or 1.0
     xi = (np.round(x * (amp / m)) + off).astype(c['dtype'])
@@ -50,11 +50,19 @@ def _impl(c):
             kw = {} if c.get('n_cycles') is None else {'n_cycles': c['n_cycles']}
             if c.get('n_cycles') is not None:      # another filter length for the same signal first: no state may leak into the next call
                 implutil.quiet(compute_shape_features, sig, c['fs'], tuple(c['f_range']), center_extrema=c['center'], find_extrema_kwargs=fek, n_cycles=3)
-            df = implutil.twice(lambda: implutil.quiet(compute_shape_features, sig, c['fs'], tuple(c['f_range']), center_extrema=c['center'], find_extrema_kwargs=fek, **kw),
-                                [sig, fek], 'compute_shape_features')
+            sf = lambda a: implutil.quiet(compute_shape_features, a, c['fs'], tuple(c['f_range']), center_extrema=c['center'], find_extrema_kwargs=fek, **kw)
+            if isinstance(sig, np.ndarray) and sig.flags.writeable and len(sig) % 3 == 1:
+                df = implutil.reuse_buffer(sf, sig)
+            else:
+                df = implutil.twice(lambda: sf(sig), [sig, fek], 'compute_shape_features')
+        elif c['via'] == 'object':
+            # through a Bycycle object with a history (other settings and a first fit on the same array, then rebound and refitted)
+            df = implutil.object_route(np.asarray(sig), c['fs'], tuple(c['f_range']), c['center'], 'cycles', None, None, fek, True)
         else:
-            df = implutil.quiet(compute_features, sig, c['fs'], tuple(c['f_range']), center_extrema=c['center'], find_extrema_kwargs=fek,
-                                threshold_kwargs={}, return_samples=True)
+            cf = lambda a: implutil.quiet(compute_features, a, c['fs'], tuple(c['f_range']), center_extrema=c['center'], find_extrema_kwargs=fek,
+                                          threshold_kwargs={}, return_samples=True)
+            # one case in three: the array is a buffer that held other samples when it was analysed a moment ago
+            df = implutil.reuse_buffer(cf, sig) if (isinstance(sig, np.ndarray) and sig.flags.writeable and len(sig) % 3 == 0) else cf(sig)
             df2 = implutil.quiet(compute_features, sig, c['fs'], tuple(c['f_range']), center_extrema=c['center'], find_extrema_kwargs=fek,
                                  threshold_kwargs={}, return_samples=False)
             for col in df2.columns:      # dropping the sample columns leaves every other column unchanged
@@ -84,9 +92,10 @@ def generate(ctx):
         cases.append(dict(sig=proto.arr2hex(s['sig']), fs=s['fs'], f_range=list(s['f_range']), fk=fk,
                           boundary=(None if rng.random() < 0.5 else int(rng.choice([0, 3, 30]))),
                           center=str(rng.choice(['peak', 'trough'])), stub=bool(rng.random() < 0.5),
-                          via=str(rng.choice(['shape', 'features'])), family=s['family']))
+                          via=str(rng.choice(['shape', 'features', 'features', 'object'])), family=s['family']))
         if cases[-1]['via'] == 'shape' and rng.random() < 0.5:      # the function's own n_cycles (band amplitude filter length)
             cases[-1]['n_cycles'] = int(rng.choice([2, 4, 5, 7]))
+        cases[-1]['pres'] = implutil.pick_presentation(rng, 0.25)
         if rng.random() < 0.15:      # integer-typed recording (ADC counts) spanning most of its type's range
             cases[-1]['dtype'] = str(rng.choice(list(INT_RANGE)))
     return cases
@@ -149,7 +158,7 @@ def evaluate(ctx, cases):
         if dm: info['model_diff'] = dm
         if ds: info['spec_diff'] = ds
         ctx.hist('outcome', 'table')
-        ctx.hist('options', '%s/%s/%s' % (c['center'], 'stub' if c['stub'] else 'amp', c['via'])); ctx.hist('dtype', c.get('dtype', 'float64'))
+        ctx.hist('options', '%s/%s/%s' % (c['center'], 'stub' if c['stub'] else 'amp', c['via'])); ctx.hist('dtype', c.get('dtype', 'float64')); ctx.hist('presentation', c.get('pres') or 'array')
         nt = p['n'] >= 2 and len(set(df['period'].values)) > 1
         out.append(Result(c, judge_ok=ds is None, corr_ok=dm is None, sig=key, nontrivial=nt, info=info))
     return out
